@@ -218,13 +218,13 @@ for S, T in [('u64', 'uint64_t'), ('i64', 'int64_t'), ('u32', 'uint32_t')]:
 __CPROVER_ensures(g_lin_count <= 1)
 __CPROVER_ensures(g_lin_count == 1 ==> ((%(T)s)g_lin_old %(c)s b && (%(T)s)g_lin_new == b && __CPROVER_return_value == (%(T)s)g_lin_old))
 __CPROVER_ensures(g_lin_count == 0 ==> (__CPROVER_return_value == (%(T)s)g_last_read && !(__CPROVER_return_value %(c)s b)))
-__CPROVER_assigns(a->v, g_lin_count, g_lin_old, g_lin_new, g_last_read, g_last_load_order)''' % dict(T=T, c=cmpop),
+__CPROVER_assigns(a->v, g_lin_count, g_lin_old, g_lin_new, g_last_read, g_last_load_order, g_last_write_order)''' % dict(T=T, c=cmpop),
             prelude=AT, defines=DEF, no_flags=['--conversion-check'],
             lower=MO + [bind('Ty', T, 1),
                         rx(r'(?<![\w.])a\.load\(', 'gv_load_%s(a, ' % S, 1, 1),
                         rx(r'(?<![\w.])a\.compare_exchange_weak\(old_a, ', 'gv_cas_weak_%s(a, &old_a, ' % S, 1, 1)],
             loops={1: '''
-__CPROVER_assigns(old_a, a->v, g_lin_count, g_lin_old, g_lin_new, g_last_read, g_last_load_order)
+__CPROVER_assigns(old_a, a->v, g_lin_count, g_lin_old, g_lin_new, g_last_read, g_last_load_order, g_last_write_order)
 __CPROVER_loop_invariant(g_lin_count == 0 && old_a == (%s)g_last_read)
 ''' % T},
             inst='Ty=%s' % T,
@@ -238,13 +238,13 @@ __CPROVER_loop_invariant(g_lin_count == 0 && old_a == (%s)g_last_read)
             proto='%s %s_%s(gv_atomic* val, %s delta)' % (T, nm, S, T),
             contract='''__CPROVER_requires(__CPROVER_is_fresh(val, sizeof(*val)) && g_lin_count == 0)
 __CPROVER_ensures(g_lin_count == 1 && (%(T)s)g_lin_new == (%(T)s)((%(T)s)g_lin_old %(o)s delta) && __CPROVER_return_value == (%(T)s)g_lin_old)
-__CPROVER_assigns(val->v, g_lin_count, g_lin_old, g_lin_new, g_last_read, g_last_load_order)''' % dict(T=T, o=op),
+__CPROVER_assigns(val->v, g_lin_count, g_lin_old, g_lin_new, g_last_read, g_last_load_order, g_last_write_order)''' % dict(T=T, o=op),
             prelude=AT, defines=DEF, no_flags=['--conversion-check'],
             lower=MO + [bind('Ty', T, 1),
                         rx(r'(?<![\w.])val\.load\(', 'gv_load_%s(val, ' % S, 1, 1),
                         rx(r'(?<![\w.])val\.compare_exchange_weak\(old_val, ', 'gv_cas_weak_%s(val, &old_val, ' % S, 1, 1)],
             loops={1: '''
-__CPROVER_assigns(old_val, val->v, g_lin_count, g_lin_old, g_lin_new, g_last_read, g_last_load_order)
+__CPROVER_assigns(old_val, val->v, g_lin_count, g_lin_old, g_lin_new, g_last_read, g_last_load_order, g_last_write_order)
 __CPROVER_loop_invariant(g_lin_count == 0 && old_val == (%s)g_last_read)
 ''' % T},
             inst='Ty=%s' % T,
@@ -304,7 +304,7 @@ static inline gv_atomic* bv_word(size_t i)
 { __CPROVER_assert(i == g_idx / 64 && i < (bs.num_bits + 63) / 64, "only the word of the addressed bit is accessed, in range"); return &g_aw; }
 #define BIT ((uint64_t)1 << (g_idx % 64))
 '''
-ASG = 'g_aw.v, g_lin_count, g_lin_old, g_lin_new, g_last_read, g_last_load_order'
+ASG = 'g_aw.v, g_lin_count, g_lin_old, g_lin_new, g_last_read, g_last_load_order, g_last_write_order'
 UNITS.append(Unit(
     name='DynamicBitSet_test', src=BS, within=r'class DynamicBitSet\b', anchor=r'bool test\(size_t index\) const',
     proto='bool DynamicBitSet_test(size_t index)',
